@@ -566,6 +566,7 @@ def body_obligations(prog, contract, lib=None, contracts=None, config=None, loop
     report['cases'][case.name] = dict(paths=len(finished), outcomes=sorted({str(outcome_sig_oc(oc)) for _, oc in finished}))
     report['dropped'] += ex.dropped
     report['used_contracts'] |= ex.used_contracts
+    report.setdefault('sidecars_used', set()).update(ex.sidecars_used)
     report['inlined'] |= ex.inlined
     report['externals'] |= ex.externals_used
     seen_outcomes = set()
@@ -602,7 +603,8 @@ def body_obligations(prog, contract, lib=None, contracts=None, config=None, loop
           if g is None:
             continue
           obls.append(Obligation('%s/ensures.%s' % (tag, name), 'ensures', list(q.pc), _b(g),
-                                 dict(result=str(oc[1])[:200], trace=q.trace[-6:])))
+                                 dict(result=str(oc[1])[:200], trace=q.trace[-6:],
+                                      **({'pattern_mismatch': g.why or 'yes'} if isinstance(g, PatternMismatch) else {}))))
         # completeness of the raises clauses: a normal return is only allowed when no iff-condition holds
         for exc, cond in contract.raises.items():
           kind, rfn = _rc(cond)
@@ -617,7 +619,8 @@ def body_obligations(prog, contract, lib=None, contracts=None, config=None, loop
           g = cl(a, q.events, res)
           if g is None:
             continue
-          obls.append(Obligation('%s/events.%s' % (tag, name), 'events', list(q.pc), _b(g), dict(events=str(q.events)[:300])))
+          obls.append(Obligation('%s/events.%s' % (tag, name), 'events', list(q.pc), _b(g),
+                                 dict(events=str(q.events)[:300], **({'pattern_mismatch': g.why or 'yes'} if isinstance(g, PatternMismatch) else {}))))
         if contract.modifies is not None and 'self' in env and isinstance(env['self'], VObj):
           written = {e[2] for e in q.events if e[0] == 'setattr' and e[1] == env['self'].oid}
           extra = written - set(contract.modifies)
@@ -672,9 +675,19 @@ def outcome_sig_oc(oc):
   return oc[0]
 
 
+class PatternMismatch:
+  """result of a clause that is decided by recognising the TERM the executor built for a documented formula: the term was not one of the
+  recognised forms.  That is not a refutation (an unrecognised but equivalent spelling looks the same), so such an obligation is never
+  promoted to a violation by the baseline rule: it is `undecided` unless the stand-in replays a failing input for the function."""
+  def __init__(self, why=''):
+    self.why = why
+
+
 def _b(g):
   if isinstance(g, bool):
     return z3.BoolVal(g)
+  if isinstance(g, PatternMismatch):
+    return z3.BoolVal(False)
   return g
 
 
